@@ -89,7 +89,7 @@ func runE3(in *e3In) (*e3Out, string, error) {
 	inp, outp, ov := filepath.Join(dir, "in.json"), filepath.Join(dir, "out.json"), filepath.Join(dir, "overlay.json")
 	b, _ := json.Marshal(in)
 	os.WriteFile(inp, b, 0o644)
-	os.WriteFile(ov, []byte(`{"Replace": {"/repo/core/zz_verif_chunk_driver_test.go": "/verif/intree/chunk_driver_test.go"}}`), 0o644)
+	os.WriteFile(ov, []byte(`{"Replace": {"`+RepoDir+`/core/zz_verif_chunk_driver_test.go": "/verif/intree/chunk_driver_test.go"}}`), 0o644)
 	cmd := exec.Command("go", "test", "-overlay", ov, "-tags", "verif", "-vet=off", "-run", "^TestVerifChunks$", "-count=1", "-timeout", "30m", "./core/")
 	cmd.Dir = RepoDir
 	cmd.Env = append(GoEnv(), "VERIF_E3_IN="+inp, "VERIF_E3_OUT="+outp)
